@@ -78,3 +78,19 @@ Theorem C02_exact_labels : forall fexp D cfg0 ops,
                    sw s = minw (sn s)) (sorted_leaves st).
 Proof. exact run_reported_sums_l. Qed.
 Example C02_labels_nonvacuous := labels2_data_applied.
+
+(* ---- the sub-cluster arithmetic is the one in the source (Proofs/GenTieTree.v) ----
+   Gen/GTree.v holds the statements of _BFSubcluster.add_to_n_samples_and_linear_sum /
+   replace_n_samples_and_linear_sum / update / merge_subcluster as step lists extracted on every run
+   (re-cast of the buffer to min_safe_uint(new_n) BEFORE the in-place add; the seven arguments of the
+   accept call in order; no mutation on refusal); Model/TreePlan.v gives each step its meaning on the
+   buffer (a cast re-wraps in minw n, add / assign work in the buffer's current width); running the
+   EXTRACTED bodies is upd_sub / merge_sub. *)
+From BB Require Import Model.TreePlan Gen.GTree Proofs.GenTieTree.
+Theorem C02_source_tie_update : forall s t,
+  run_update GTree.add_to_body GTree.update_body s t = Some (upd_sub s t).
+Proof. exact upd_sub_gen. Qed.
+Theorem C02_source_tie_merge : forall fexp c thr s t,
+  run_merge fexp c thr GTree.replace_body t GTree.merge_body s =
+  Some (match merge_sub fexp c thr s t with Some m => (m, true) | None => (s, false) end).
+Proof. exact merge_sub_gen. Qed.
